@@ -32,13 +32,21 @@ inductive Err where
   | noQubit | quantum | value | unsupported | notImplemented | index
   deriving DecidableEq, Repr
 
+/-- `Except` has no `DecidableEq` in core; needed to evaluate examples by `decide` -/
+instance instDecEqExcept {ε α : Type} [DecidableEq ε] [DecidableEq α] : DecidableEq (Except ε α) := fun a b =>
+  match a, b with
+  | .ok x, .ok y => if h : x = y then isTrue (by rw [h]) else isFalse (by intro h'; cases h'; exact h rfl)
+  | .error x, .error y => if h : x = y then isTrue (by rw [h]) else isFalse (by intro h'; cases h'; exact h rfl)
+  | .ok _, .error _ => isFalse (by intro h; cases h)
+  | .error _, .ok _ => isFalse (by intro h; cases h)
+
 /-! ## the contract -/
 
 /-- a register: `maxQubits` and the ordered slots (labels identify qubits) -/
 structure Reg (σ : Type) where
   max : Nat
   slots : List σ
-  deriving Repr
+  deriving DecidableEq, Repr
 
 def Reg.active {σ} (r : Reg σ) : Nat := r.slots.length
 
@@ -303,7 +311,7 @@ structure QutipBk (σ : Type) where
   max : Nat
   active : Nat
   reg : List σ
-  deriving Repr
+  deriving DecidableEq, Repr
 
 namespace QutipBk
 variable {σ : Type}
@@ -381,7 +389,7 @@ structure ProjQBk (σ : Type) where
   max : Nat
   active : Nat
   qubitReg : List (Option σ)
-  deriving Repr
+  deriving DecidableEq, Repr
 
 namespace ProjQBk
 variable {σ : Type}
